@@ -41,6 +41,22 @@ chk("C11", "sysmc", "fault_enumeration",
     "The descriptor table (number -> object, close-on-exec) is listed before and after every call of the covering family (Rust and C API, both backends, warm/cold, three mount-API feature sets), under every single injected fault and every single attacker mutation of a scenario subset; it may differ only by the returned close-on-exec descriptor (cold runs: plus the process-lifetime procfs handle).",
     SYS_NOTE, "exhaustive single-fault / single-mutation enumeration with a descriptor-table invariant", "DESIGN.md 4/C11")
 
+TM_NOTE = "Trusts the running kernel (6.18, tmpfs) for the oracle's raw *at calls and openat2(RESOLVE_IN_ROOT); kernel-without-openat2 simulated by seccomp ENOSYS in the worker; small-scope hypothesis."
+chk("C04", "treemc", "exploration",
+    "Pure differential enumeration: every enumerated (tree, operation, arguments) case is executed on a kernel-backend worker and on an emulated-backend worker (freshly rebuilt twin trees for mutating operations) and the outcomes are compared: success/failure, ErrorKind, errno, identity of the returned object, access mode / FD_CLOEXEC / status flags (O_NOFOLLOW excluded), canonical resulting filesystem including everything outside the root. Lookups also run through a Root wrapping a caller-supplied O_RDONLY descriptor.",
+    TM_NOTE + " No model and no kernel oracle: only agreement of the two implementations is decided.",
+    "exhaustive differential enumeration of a bounded input space (two implementations)", "DESIGN.md 4/C04")
+chk("C12", "treemc+sysmc", "model_checking",
+    "Sequential half: bounded-exhaustive trees x path spellings x modes; each case on a rebuilt tree on both backends and on an oracle twin where the harness computes the longest in-root-resolvable prefix with openat2 and creates the remaining plain components itself (mkdir -p); errno, resulting filesystem (modes incl. umask/setgid inheritance) and handle identity must agree. Concurrent half: 2-3 callers as ptrace-stepped processes on one root, every interleaving at tree-relevant syscall granularity up to the preemption bound; all succeed, agree on the directories, create only directories on the requested chains.",
+    TM_NOTE + " Concurrent callers are processes (libpathrs calls share no mutable memory).",
+    "explicit-state enumeration with a reference twin + preemption-bounded exhaustive interleaving exploration under a controlled scheduler", "DESIGN.md 4/C12")
+chk("C13", "treemc+sysmc", "model_checking",
+    "Sequential half: bounded-exhaustive trees (links to siblings/parents/outside, loops, fifos, hard links) x path spellings incl. '.', '..', trailing slashes; oracle twin = rm -r of exactly the named entry without following links; errno and canonical resulting filesystem (inside and outside the root) must agree, '.'/'..' must be refused without effect. Concurrent half: callers of the same path under every interleaving up to the preemption bound must all succeed and leave the path absent with no collateral; callers of nested paths may fail but must not cause collateral. Attack half: directory<->symlink swaps at every syscall boundary (judged as C03).",
+    TM_NOTE, "explicit-state enumeration with a reference twin + preemption-bounded exhaustive interleaving exploration + attacker schedules", "DESIGN.md 4/C13")
+chk("C14", "treemc", "model_checking",
+    "Bounded-exhaustive trees x path spellings x single-entry operations (create x 7 inode kinds, create_file x flags, remove_file, remove_dir, rename x flags, C entry points with raw S_IFMT): every case on a rebuilt tree on both backends and on an oracle twin where the harness resolves the parent with openat2(RESOLVE_IN_ROOT) and issues the single raw *at call; errno and canonical resulting filesystem must be identical (this is the frame condition); trailing slash => invalid argument (or the lookup error of the part before it) and no effect.",
+    TM_NOTE, "explicit-state enumeration of operation applications against a reference twin (state = canonical tree)", "DESIGN.md 4/C14")
+
 not_applicable = [
     {"property_id": "C18", "reason": "relates static artefacts (exported symbols, header, Go/Python binding declarations); there is no behaviour, schedule or state space to enumerate - deciding it is translation validation / static comparison, a different family (DESIGN.md section 5)"},
 ]
